@@ -91,6 +91,14 @@ func (e *ME) Src() string {
 			as = append(as, e.Args[i].Src())
 		}
 		return e.N + "(" + strings.Join(as, ", ") + ")"
+	case "arr": // an array literal; Args = items
+		var as []string
+		for i := range e.Args {
+			as = append(as, e.Args[i].Src())
+		}
+		return "[" + strings.Join(as, ", ") + "]"
+	case "in":
+		return "(" + e.L.Src() + " in " + e.R.Src() + ")"
 	}
 	panic("ME.Src: " + e.K)
 }
@@ -291,6 +299,12 @@ func valToM(v Val) any {
 			out = append(out, e.Str())
 		}
 		return out
+	case v.K == "anys":
+		out := []any{}
+		for _, e := range v.E {
+			out = append(out, valToM(e))
+		}
+		return out
 	case v.K == "mapSI":
 		m := map[string]int{}
 		for i, k := range v.Ks {
@@ -313,6 +327,12 @@ func valToM(v Val) any {
 		m := map[string]any{}
 		for i, k := range v.Ks {
 			m[k.Str()] = valToM(v.E[i])
+		}
+		return m
+	case v.K == "mapAA": // (only with int keys and string values: iterates like a map[int]string)
+		m := map[int]string{}
+		for i, k := range v.Ks {
+			m[int(k.I)] = v.E[i].Str()
 		}
 		return m
 	}
@@ -405,6 +425,8 @@ func mTruthy(v any) bool {
 		return x.s != ""
 	case []int:
 		return len(x) > 0
+	case []any:
+		return len(x) > 0
 	case []string:
 		return len(x) > 0
 	case map[string]int:
@@ -479,6 +501,21 @@ func (ip *mInterp) eval(s *mScope, e *ME) any {
 		l, _ := ip.eval(s, e.L).(int)
 		r, _ := ip.eval(s, e.R).(int)
 		return l - r
+	case "arr":
+		items := []any{}
+		for i := range e.Args {
+			items = append(items, ip.eval(s, &e.Args[i]))
+		}
+		return items
+	case "in":
+		l := ip.eval(s, e.L)
+		items, _ := ip.eval(s, e.R).([]any)
+		for _, it := range items {
+			if mEqual(l, it) {
+				return true
+			}
+		}
+		return false
 	case "call":
 		cl, ok := ip.lookup(s, e.N).(*mClosure)
 		if !ok {
@@ -506,6 +543,32 @@ func mIterate(v any, rev, sorted bool) []mItem {
 		c := append([]int(nil), x...)
 		if sorted {
 			sort.Ints(c)
+		}
+		for _, i := range c {
+			items = append(items, mItem{k: i})
+		}
+	case []any: // an array literal or a []any of the context
+		c := append([]any(nil), x...)
+		if sorted {
+			kind := ""
+			for _, i := range c {
+				k := fmt.Sprintf("%T", i)
+				if kind != "" && k != kind {
+					panic(mOpaque{"sorted over items of different kinds: no order is stated"})
+				}
+				kind = k
+			}
+			sort.SliceStable(c, func(a, b int) bool {
+				switch x := c[a].(type) {
+				case int:
+					return x < c[b].(int)
+				case string:
+					return x < c[b].(string)
+				case float64:
+					return x < c[b].(float64)
+				}
+				panic(mOpaque{"sorted over items without an order"})
+			})
 		}
 		for _, i := range c {
 			items = append(items, mItem{k: i})
